@@ -791,6 +791,17 @@ class DataFrameSchema(Generic[TDataObject], BaseSchema):
         }
 
         new_schema.columns = new_columns
+
+        # the jointly unique columns are referred to by name as well
+        if new_schema.unique is not None:
+            new_schema.unique = [
+                (
+                    [rename_dict.get(col, col) for col in item]
+                    if isinstance(item, list)
+                    else rename_dict.get(item, item)
+                )
+                for item in new_schema.unique
+            ]
         return cast(Self, new_schema)
 
     def select_columns(self, columns: List[Any]) -> Self:
